@@ -3,7 +3,7 @@ CONSTANTS
  N = 3
  T = 2
  NV = 1
- Cmds = {1, 2, 3}
+ Cmds = {1, 2, 3, 4}
  RepostAppends = TRUE
  Defect = "none"
  Honest = {1, 2}
